@@ -48,7 +48,9 @@ Judge(e) ==
               /\ Report(\A i, j \in DOMAIN e.widths : e.widths[i] = e.widths[j], e, "C20.width", 0)
               /\ e.nlines = 1 + Len(rows) =>
                    /\ Report(e.header, e, "C20.header", 0)
-                   /\ \A r \in DOMAIN rows :
+                   \* (without a readable header line the harness decodes no rows: nothing to look at row by row)
+                   /\ Report(Len(e.rows) = Len(rows), e, "C20.header", <<"rows decoded", Len(e.rows)>>)
+                   /\ Len(e.rows) = Len(rows) => \A r \in DOMAIN rows :
                         LET x == e.rows[r]  t == rows[r].t IN
                         /\ Report(x.hasid => x.id = W.ids[t], e, "C20.order", r)
                         /\ Report(x.hasname => ((x.blank \/ x.indent = 3 * rows[r].depth) /\ x.name = W.name[t]), e, "C20.indent", r)
